@@ -111,9 +111,11 @@ def _input(case):
     if kind == "ac" and d.dtype.kind == "f":
         # documented encodings: nodata attribute for integer data, NaN for float data
         d = d.where(d != d.attrs.pop("nodata"))
-    if kind == "zonal":
-        return d.transpose("time", "y", "x")
-    return d.transpose(*case.get("dims", ["time", "y", "x"]))
+    d = d.transpose("time", "y", "x") if kind == "zonal" else d.transpose(*case.get("dims", ["time", "y", "x"]))
+    if case.get("materialize", True):
+        # make the requested dimension order the MEMORY order as well (a transposed view keeps the time axis contiguous)
+        d = d.copy(data=np.ascontiguousarray(d.values))
+    return d
 
 
 def _run(case, d):
@@ -375,7 +377,7 @@ def cube(draw, ops=None):
             "dims": list(draw(st.permutations(["time", "y", "x"]))), "cy": draw(st.sampled_from(["one", "ragged", "single"])),
             "cx": draw(st.sampled_from(["one", "ragged", "single"])), "sched": draw(st.sampled_from(["synchronous", "threads", "threads"])),
             "workers": draw(st.sampled_from([1, 2, 3, 8, 16])), "tchunk": draw(st.sampled_from([1, 2, 5])),
-            "perm": list(draw(st.permutations(list(range(ny * nx)))))}
+            "perm": list(draw(st.permutations(list(range(ny * nx))))), "materialize": draw(st.booleans())}
     if kind == "rain":
         case["nodata"] = -3000
     return case
@@ -394,13 +396,17 @@ def run(ctx):
     def f_lazy(case):
         nblocks = (1 if case["cy"] == "single" else 2) * (1 if case["cx"] == "single" else 2)
         rec.case("lazy", case, nontrivial=nblocks > 1, cls=["op:" + case["op"], "sched:%s/%d" % (case["sched"], case["workers"]), "dtype:" + case["dtype"],
-                                                            "dims:" + "/".join(case["dims"]), "chunks:%s/%s" % (case["cy"], case["cx"])])
+                                                            "dims:" + "/".join(case["dims"]), "chunks:%s/%s" % (case["cy"], case["cx"]),
+                                                            "memory_order=dims" if case.get("materialize", True) else "transposed_view"])
         sub_lazy(case)
 
     # every operation at least a few times: one Hypothesis run per operation keeps failures of different ops apart
     per_op = ctx.n(5, 60)
     for op in sorted(_ops()):
         ctx.given("lazy", cube([op]), per_op, fn=f_lazy, shrink=False)
+        # the widest dtype of the operation (no cast, hence no contiguous temporary) with the dimension order as memory order
+        widest = DTYPES[_ops()[op][0]][-1]
+        ctx.given("lazy", cube([op]).map(lambda c, widest=widest: dict(c, dtype=widest, materialize=True)), ctx.n(3, 20), fn=f_lazy, shrink=False)
 
     def f_j(case):
         rec.case("joint", case, nontrivial=True, cls=["pair:" + case["pair"], "sched:" + case["sched"]])
